@@ -16,6 +16,9 @@
 #include <stdlib.h>
 #include <string.h>
 #include <sys/epoll.h>
+#include <sys/eventfd.h>
+#include <sys/timerfd.h>
+#include <sys/syscall.h>
 #include <unistd.h>
 
 /* this file is compiled with the same -Depoll_wait=t2_epoll_wait as the
@@ -23,6 +26,8 @@
 #undef epoll_wait
 extern int epoll_wait(int epfd, struct epoll_event* events, int maxevents, int timeout);
 
+static __thread int t2_fiber_poll;
+void t2_advance_ticks(unsigned k);
 static void* (*t2_thread_func)(void*);
 static void* t2_thread_arg[RT_MAX_THREADS];
 static int t2_nthreads;
@@ -42,9 +47,36 @@ int t2_pthread_create(pthread_t* th, const pthread_attr_t* attr, void* (*fn)(voi
 
 int t2_epoll_wait(int epfd, struct epoll_event* events, int maxevents, int timeout) {
   (void)timeout;
-  (void)epfd; (void)events; (void)maxevents;
-  rt_point(T2_LOC_POLL, K_RELAX, 0);
-  return 0;   /* no descriptor or timer events in T2 programs: keeps the run deterministic */
+  rt_point(T2_LOC_POLL, K_RELAX, t2_fiber_poll ? 4 : 0);   /* 4: polled from a fiber, the thread is not idle */
+  if (!t2_fiber_poll) t2_advance_ticks(1);   /* an idle scheduler loop lets virtual time pass */
+  /* never blocks; the timer is a harness-driven eventfd (below) and the only descriptors are local
+   * socket pairs, so what the kernel reports is a function of what the program did: deterministic */
+  return epoll_wait(epfd, events, maxevents, 0);
+}
+
+/* virtual time: fiber_event_native.c is compiled with -Dtimerfd_create=t2_timerfd_create
+ * -Dtimerfd_settime=t2_timerfd_settime; the "timer" is an eventfd whose counter the program advances */
+static int t2_timer_fd = -1;
+int t2_timerfd_create(int clockid, int flags) {
+  (void)clockid; (void)flags;
+  t2_timer_fd = eventfd(0, EFD_NONBLOCK);
+  return t2_timer_fd;
+}
+int t2_timerfd_settime(int fd, int flags, const struct itimerspec* nv, struct itimerspec* ov) {
+  (void)fd; (void)flags; (void)nv; (void)ov;
+  return 0;
+}
+void t2_advance_ticks(unsigned k) {
+  uint64_t v = k;
+  if (t2_timer_fd >= 0 && k) { long r = syscall(SYS_write, t2_timer_fd, &v, sizeof v); (void)r; }
+}
+
+/* poll for events from the calling fiber (a fiber that busy-yields keeps its thread's scheduler loop, the only
+ * other poller, from running) */
+void t2_poll_from_fiber(void) {
+  t2_fiber_poll = 1;
+  fiber_poll_events();
+  t2_fiber_poll = 0;
 }
 
 static void reg_manager(fiber_manager_t* m, int t) {
